@@ -167,6 +167,10 @@ def _compose_backends(backends: Iterable[Backend]) -> Backend:
 M = TypeVar("M", bound=nn.Module)
 
 
+def _call_base_forward(module: nn.Module, *args: Any, **kwargs: Any) -> Any:
+    return module.base_forward(*args, **kwargs)  # type: ignore[operator]
+
+
 @no_type_check
 def apply_transform(
     module: M,
@@ -223,8 +227,17 @@ def apply_transform(
     def new_forward(*args: Any, **kwargs: Any) -> Any:
         if module.rerun_transform:
             torch._dynamo.reset()
-            dynamo_module = torch._dynamo.optimize(backend)(module)
-            module.dynamo_forward = patch_to_expand_modules(dynamo_module.forward)
+            if type(module).__module__.startswith(("torch.nn.", "torch.ao.")):
+                # TorchDynamo never starts tracing in a frame that belongs to torch.nn
+                # itself (e.g. a root nn.Sequential or nn.Linear): enter through a
+                # frame of our own, from which the root's forward is inlined.
+                dynamo_forward = torch._dynamo.optimize(backend)(_call_base_forward)
+                module.dynamo_forward = patch_to_expand_modules(
+                    functools.partial(dynamo_forward, module)
+                )
+            else:
+                dynamo_module = torch._dynamo.optimize(backend)(module)
+                module.dynamo_forward = patch_to_expand_modules(dynamo_module.forward)
             module.rerun_transform = False
         with patch.object(module, "forward", module.base_forward):
             return module.dynamo_forward(*args, **kwargs)
